@@ -359,6 +359,61 @@ func ruleV4(c *Ctx) {
 						}
 					}
 				}
+				// the restart is taken for EVERY new header: the test marker != counter is not itself guarded by the
+				// value counter being zero (`N == 0 && marker != counter` would restart for the first header only),
+				// and the restart records the header it was made for (marker = counter), else every later value
+				// of the same header would restart again
+				if tested {
+					markerOK, guardOK, foundTest := false, true, false
+					for _, i2 := range b.Instrs {
+						if st2, ok := i2.(*ssa.Store); ok {
+							if fa2, ok := st2.Addr.(*ssa.FieldAddr); ok && sameAddr(fa2.X, fa.X) {
+								if ld, ok := st2.Val.(*ssa.UnOp); ok && ld.Op == token.MUL {
+									if cfa, ok := ld.X.(*ssa.FieldAddr); ok && sameAddr(cfa.X, fa.X) {
+										for _, ci := range counters {
+											if cfa.Field == ci && fa2.Field != ci {
+												markerOK = true
+											}
+										}
+									}
+								}
+							}
+						}
+					}
+					for tb := range seen {
+						iff := tb.Instrs[len(tb.Instrs)-1].(*ssa.If)
+						bo, ok := iff.Cond.(*ssa.BinOp)
+						if !ok {
+							continue
+						}
+						readsCounter := false
+						for _, o := range []ssa.Value{bo.X, bo.Y} {
+							if ld, ok := o.(*ssa.UnOp); ok && ld.Op == token.MUL {
+								if cfa, ok := ld.X.(*ssa.FieldAddr); ok && sameAddr(cfa.X, fa.X) {
+									for _, ci := range counters {
+										if cfa.Field == ci {
+											readsCounter = true
+										}
+									}
+								}
+							}
+						}
+						if !readsCounter {
+							continue
+						}
+						foundTest = true
+						// what selects the header test itself?
+						for _, cd := range cds[tb] {
+							i3 := cd.branch.Instrs[len(cd.branch.Instrs)-1].(*ssa.If)
+							if b3, ok := i3.Cond.(*ssa.BinOp); ok && b3.Op == token.EQL {
+								if k, isC := constIntOf(b3.Y); isC && k == 0 && cd.idx == 0 {
+									guardOK = false // reached only when some count == 0
+								}
+							}
+						}
+					}
+					c.check(markerOK && guardOK && foundTest, "V4", key+":every-header", st.Pos(), fmt.Sprintf("the header-counter test is reached whatever the value count is (not only when it is 0: %v) and the restart records the header it was made for (marker = counter stored with it: %v)", guardOK, markerOK))
+				}
 				c.check(tested, "V4", key, st.Pos(), "the running extent "+fieldCell(fa)+" (restarted here from the element just parsed, extended otherwise) restarts under a test of the object's header counter — the field the header-line parser advances on entering a new header — not of the per-message value count alone")
 			}
 		}
